@@ -651,6 +651,9 @@ func (self *TextCommandConverter) ConvertTextAppendCommand(textProtocol ITextPro
 			}
 			return stream.WriteBytes([]byte(fmt.Sprintf("-ERR %d\r\n", lockCommandResult.Result)))
 		}
+		if lockCommandResult.Data == nil {
+			return stream.WriteBytes([]byte(fmt.Sprintf(":%d\r\n", len(args[2]))))
+		}
 		return stream.WriteBytes([]byte(fmt.Sprintf(":%d\r\n", lockCommandResult.Data.GetValueSize()+len(args[2]))))
 	}, nil
 }
